@@ -529,3 +529,101 @@ func RunStateHook(p *Prog, r *Report) {
 		r.Fail("UNRESOLVED", "-", "-", "element fields set on caller-owned elements", "-", "none found, confirmed 1 (modReduced)")
 	}
 }
+
+// OPERAND-STATE (C11): a gadget that caches something it computed on an operand object received from its caller
+// (`Q[i].Lines = &lines`) writes into the user's circuit value when the operand is a field of the circuit: the
+// next compilation of the same value finds the cache, emits a different system, and the schema walk even
+// enumerates the cached elements as inputs. Reported: in std/algebra/…, a store of the address of a locally
+// computed object (or a locally built slice / map) into a pointer-, slice- or map-typed field of an object reached
+// through a parameter other than the method receiver.
+func RunOperandState(p *Prog, r *Report) {
+	const rule = "OPERAND-STATE"
+	n := 0
+	for _, fn := range p.Funcs {
+		pk := FuncPkg(fn)
+		if pk == nil || len(fn.Blocks) == 0 || fn.Parent() != nil {
+			continue
+		}
+		rel := strings.TrimPrefix(pk.Path(), modPath+"/")
+		if !strings.HasPrefix(rel, "std/algebra/") {
+			continue
+		}
+		if o := fn.Origin(); o != nil && o != fn {
+			continue
+		}
+		ord := map[string]int{}
+		for _, b := range fn.Blocks {
+			for _, ins := range b.Instrs {
+				st, ok := ins.(*ssa.Store)
+				if !ok {
+					continue
+				}
+				fa, ok := st.Addr.(*ssa.FieldAddr)
+				if !ok {
+					continue
+				}
+				switch fa.Type().(*types.Pointer).Elem().Underlying().(type) {
+				case *types.Pointer, *types.Slice, *types.Map:
+				default:
+					continue
+				}
+				// stored value: address of something allocated here
+				local := false
+				switch v := st.Val.(type) {
+				case *ssa.Alloc:
+					local = true
+				case *ssa.MakeSlice, *ssa.MakeMap:
+					local = true
+				case *ssa.Slice:
+					if _, ok := v.X.(*ssa.Alloc); ok {
+						local = true
+					}
+				}
+				if !local {
+					continue
+				}
+				// the object: reached from a parameter that is not the receiver
+				base := fa.X
+				var pm *ssa.Parameter
+				for d := 0; d < 8 && base != nil; d++ {
+					switch x := base.(type) {
+					case *ssa.Parameter:
+						pm = x
+						base = nil
+					case *ssa.UnOp:
+						if x.Op == token.MUL {
+							if a, ok := x.X.(*ssa.Alloc); ok {
+								base = singleStore(a)
+							} else {
+								base = x.X
+							}
+						} else {
+							base = nil
+						}
+					case *ssa.IndexAddr:
+						base = x.X
+					case *ssa.FieldAddr:
+						base = x.X
+					case *ssa.Slice:
+						base = x.X
+					default:
+						base = nil
+					}
+				}
+				if pm == nil {
+					continue
+				}
+				if fn.Signature.Recv() != nil && len(fn.Params) > 0 && pm == fn.Params[0] {
+					continue
+				}
+				n++
+				fname := fieldName(fa.X.Type(), fa.Field)
+				k := "operand-cache:" + namedName(deref(fa.X.Type())) + "." + fname
+				ord[k]++
+				key := fmt.Sprintf("%s#%d", k, ord[k])
+				r.Fail(rule, pk.Path(), FuncName(fn), key, p.Pos(st.Pos()), fmt.Sprintf("a locally computed object is cached in field %s of an operand received through parameter %s: when the operand is a field of the user's circuit value the cache survives the compilation, and compiling the same value again yields a different constraint system", fname, pm.Name()))
+			}
+		}
+	}
+	r.Pass(rule, "-", "-", "scan", "-", fmt.Sprintf("%d caches on caller-owned operands found in std/algebra", n), false)
+}
